@@ -17,7 +17,7 @@ import (
 
 func ip(i int) *int { return &i }
 
-// c12Segments is the segment alphabet (92 non-identity segments).
+// c12Segments is the segment alphabet (101 non-identity segments).
 func c12Segments() []refmodel.Seg {
 	var segs []refmodel.Seg
 	for _, opt := range []bool{false, true} {
@@ -45,6 +45,13 @@ func c12Segments() []refmodel.Seg {
 		}
 	}
 	segs = append(segs, refmodel.Seg{Kind: "iter"}, refmodel.Seg{Kind: "iter", Opt: true})
+	// non-canonical decimal spellings (leading zeros): same value, decimal reading
+	segs = append(segs,
+		refmodel.Seg{Kind: "index", Index: 10, Spell: "010"}, refmodel.Seg{Kind: "index", Index: 8, Spell: "08"}, refmodel.Seg{Kind: "index", Index: -10, Spell: "-010"},
+		refmodel.Seg{Kind: "index", Index: 0, Spell: "00"}, refmodel.Seg{Kind: "index", Index: 11, Spell: "0011", Opt: true},
+		refmodel.Seg{Kind: "slice", Lo: ip(10), Spell: "010:"}, refmodel.Seg{Kind: "slice", Hi: ip(10), Spell: ":010"}, refmodel.Seg{Kind: "slice", Lo: ip(1), Hi: ip(9), Spell: "01:09"},
+		refmodel.Seg{Kind: "slice", Lo: ip(-10), Hi: ip(-1), Spell: "-010:-01"},
+	)
 	return segs
 }
 
@@ -265,9 +272,9 @@ func C12() *engine.Check {
 		Level:    "model_checking",
 		Subs: []*engine.Sub{{
 			Name: "resolve-vs-segmentwise-reference",
-			Rule: "every sequence of segments from a 92-segment alphabet (fields .a .b [\"a\"] [\"\"], indexes 0 1 -1 -2 5 -5, slices over bounds {none,-4,-1,0,1,4}, iterator; each with and without '?') parsed from its text, resolved on " + fmt.Sprint(len(data)) + " IPLD values of every kind; compared with the fold of a per-segment reference (Python slice clamping, negative indexes, by-rune string slices) and, differentially, with resolving the last segment on the implementation's own result for the prefix; non-trivial = not (both error)",
+			Rule: "every sequence of segments from a 101-segment alphabet (fields .a .b [\"a\"] [\"\"], indexes 0 1 -1 -2 5 -5, slices over bounds {none,-4,-1,0,1,4}, iterator; each with and without '?'; plus 9 leading-zero spellings of indexes and slice bounds) parsed from its text, resolved on " + fmt.Sprint(len(data)) + " IPLD values of every kind; compared with the fold of a per-segment reference (Python slice clamping, negative indexes, by-rune string slices) and, differentially, with resolving the last segment on the implementation's own result for the prefix; non-trivial = not (both error)",
 			Bound: func(t string) string {
-				return fmt.Sprintf("selectors of 0..%d segments (92^k each) x %d values", tierN(t, 2, 3), len(data))
+				return fmt.Sprintf("selectors of 0..%d segments (101^k each) x %d values", tierN(t, 2, 3), len(data))
 			},
 			Gen:     gen(2),
 			NewCase: func() any { return &c12Case{} },
